@@ -180,7 +180,7 @@ fn run_scenario(sc: &Value, idx: usize, bin: &Path, scratch: &Path, local: bool)
         let o = &s["outcome"];
         let mut push = |k: &'static str, v: &str| plan.entry(k).or_default().push(v.to_string());
         match step {
-            "build" | "rebuild" => { if o["pack"] != "nopack" { push("pack-build", o["pack"].as_str().unwrap()) } }
+            "build" | "rebuild" => { if o["pack"] != "nopack" && o["pack"] != "missing" { push("pack-build", o["pack"].as_str().unwrap()) } }
             "shell" => push("run-oneshot", o.as_str().unwrap()),
             "sbom" => push("sbom", o.as_str().unwrap()),
             "start_container" => push("run-detached", o.as_str().unwrap()),
@@ -193,6 +193,8 @@ fn run_scenario(sc: &Value, idx: usize, bin: &Path, scratch: &Path, local: bool)
     if let Some(k) = script.iter().filter(|s| s["step"] == "build" || s["step"] == "rebuild").position(|s| s["outcome"]["pack"] == "nopack") {
         fs::write(d.join("state/cargo-fail-at"), k.to_string()).unwrap();
     }
+    // pack = "missing": no pack executable anywhere on PATH
+    if script[0]["outcome"]["pack"] == "missing" { fs::remove_file(d.join("bin/pack")).unwrap(); }
     fs::write(d.join("state/plan.json"), json!(plan).to_string()).unwrap();
     fs::write(d.join("scenario.json"), json!({"script": script, "cfg": cfg}).to_string()).unwrap();
     let fixture_root = if local { d.join("proj/fixture app") } else { d.join("proj") };
